@@ -20,7 +20,7 @@ import hippolyzer.lib.proxy.templates  # noqa: E402,F401
 from hippolyzer.lib.base.datatypes import UUID  # noqa: E402
 from hippolyzer.lib.base.message import message_formatting as mf  # noqa: E402
 from hippolyzer.lib.base.message.message import Block  # noqa: E402
-from hippolyzer.lib.base.message.msgtypes import MsgType  # noqa: E402
+from hippolyzer.lib.base.message.msgtypes import MsgType, MsgBlockType  # noqa: E402
 from hippolyzer.lib.base.settings import Settings  # noqa: E402
 from hippolyzer.lib.base.message.udpserializer import UDPMessageSerializer  # noqa: E402
 from hippolyzer.lib.base.message.udpdeserializer import UDPMessageDeserializer  # noqa: E402
@@ -47,7 +47,7 @@ ASSUMPTIONS = [
 MUST_REACH = {"roundtrips": 800, "templates_covered": 481, "beautified_roundtrips": 300, "packed_fields_printed": 200,
               "multiline_strings": 30, "replacement_hits": 30, "safe_fuzz_texts": 300, "safe_fuzz_rejected_eval": 50,
               "registered_payload_messages": 100, "same_bytes_two_contexts": 5, "damaged_registered_payloads": 5, "degenerate_registered_payloads": 5,
-              "replacement_semantics_cases": 20, "replacement_semantics_falsy_values": 4, "replacement_hits_lazy_table": 3}
+              "alternating_context_message_pairs": 5, "replacement_semantics_cases": 20, "replacement_semantics_falsy_values": 4, "replacement_hits_lazy_table": 3}
 
 _ser = UDPMessageSerializer()
 _es = Settings()
@@ -411,6 +411,42 @@ def inject_registered_payloads(rng, tmpl, spec):
     return touched
 
 
+def alternate_single_context_messages(ctx, tmpl, spec):
+    """Two messages that carry the very same payload bytes under different values of the switching sibling, printed one after
+    the other, again and again, each from a freshly decoded object that is dropped right afterwards: whatever the printer
+    remembers between calls (by object identity, by bytes) must not let one message's form leak into the other's."""
+    import copy
+    for bi, (bname, entries) in enumerate(spec["blocks"]):
+        if not entries or len(entries) < 2:
+            continue
+        tb = tmpl.get_block(bname)
+        for var in tb.variables:
+            key = (tmpl.name, bname, var.name)
+            if key not in se.SUBFIELD_SERIALIZERS or var.type not in (MsgType.MVT_VARIABLE, MsgType.MVT_FIXED):
+                continue
+            for i, e1 in enumerate(entries):
+                for e2 in entries[i + 1:]:
+                    if e1[var.name] == e2[var.name] and e1[var.name][0] == "b" and len(e1[var.name][1]) >= 4 and \
+                            any(e1[k] != e2[k] for k in e1 if e1[k][0] == "i"):
+                        variants = []
+                        for e in (e1, e2):
+                            s2 = copy.deepcopy(spec)
+                            s2["blocks"][bi] = (bname, [copy.deepcopy(e)]) if isinstance(spec["blocks"][bi], tuple) else [bname, [copy.deepcopy(e)]]
+                            if tb.block_type == MsgBlockType.MBT_MULTIPLE:
+                                return
+                            variants.append(s2)
+                        for rep in range(6):
+                            s2 = variants[rep % 2]
+                            try:
+                                m = _deser.deserialize(wire.ref_encode(tmpl, s2))
+                            except Exception:
+                                return
+                            check_roundtrip(ctx, tmpl, s2, m, True, 0, {"spec": s2, "alternating": True})
+                            del m
+                        ctx.count("alternating_context_message_pairs")
+                        return
+
+
 def force_awkward_strings(rng, tmpl, spec):
     for (bname, entries) in spec["blocks"]:
         if not entries:
@@ -553,6 +589,8 @@ def run(ctx):
                     m = _deser.deserialize(data)
                     m.direction = msg.direction
                     check_roundtrip(ctx, tmpl, spec, m, beautify, table, {"spec": spec})
+            del m
+            alternate_single_context_messages(ctx, tmpl, spec)
     ctx.count("same_bytes_two_contexts", _STATE.get("same_bytes_two_contexts", 0))
     ctx.count("damaged_registered_payloads", _STATE.get("damaged_registered_payloads", 0))
     ctx.count("degenerate_registered_payloads", _STATE.get("degenerate_registered_payloads", 0))
